@@ -1,0 +1,383 @@
+// This Source Code Form is subject to the terms of the Mozilla Public
+// License, v. 2.0. If a copy of the MPL was not distributed with this file,
+// You can obtain one at http://mozilla.org/MPL/2.0/.
+//
+// Copyright (c) 2026, Olof Kraigher olof.kraigher@gmail.com
+
+//! The parser is a recursive descent parser. Input that is nested too deep must be reported
+//! as a syntax error, it must not exhaust the stack of the thread, which aborts the process.
+
+use std::path::Path;
+use vhdl_lang::ast::DesignFile;
+use vhdl_lang::{
+    Config, Diagnostic, NullMessages, Position, Project, Source, VHDLFormatter, VHDLParser,
+    VHDLStandard,
+};
+
+/// Files are parsed and analysed by worker threads that have a stack of 2 MiB.
+/// The stack frames of an unoptimized build are about ten times as large as those of an
+/// optimized build (up to 48 KiB for each level of nested statements),
+/// such a build needs a proportionally larger stack for the same input.
+const STACK_SIZE: usize = if cfg!(debug_assertions) { 32 } else { 2 } * 1024 * 1024;
+
+/// Nested deeper than any stack can take
+const TOO_DEEP: usize = 100_000;
+
+/// Deeper than any sensible code, still accepted by the parser
+const DEEP: usize = 250;
+
+/// A construct that may be nested in itself
+struct Nested {
+    name: &'static str,
+    /// The text before the nested construct
+    prefix: &'static str,
+    /// Opens one level of the construct
+    open: &'static str,
+    /// The innermost text
+    inner: &'static str,
+    /// Closes one level of the construct
+    close: &'static str,
+    /// The text after the nested construct
+    suffix: &'static str,
+}
+
+impl Nested {
+    /// The construct nested `depth` times within itself
+    fn closed(&self, depth: usize) -> String {
+        [
+            self.prefix,
+            &self.open.repeat(depth),
+            self.inner,
+            &self.close.repeat(depth),
+            self.suffix,
+        ]
+        .concat()
+    }
+
+    /// The input ends where the innermost construct starts
+    fn unclosed(&self, depth: usize) -> String {
+        [self.prefix, &self.open.repeat(depth)].concat()
+    }
+}
+
+const fn expression(name: &'static str, open: &'static str, inner: &'static str) -> Nested {
+    Nested {
+        name,
+        prefix: "package p is\n  constant c : integer := ",
+        open,
+        inner,
+        close: ")",
+        suffix: ";\nend package;\n",
+    }
+}
+
+const EXPRESSIONS: &[Nested] = &[
+    expression("parenthesized expression", "(", "1"),
+    expression("aggregate", "(others => ", "0"),
+    expression("function call", "a(b", ""),
+    expression("qualified expression", "t'(", "1"),
+    expression("attribute with parameter", "t'val(", "1"),
+    Nested {
+        close: "",
+        ..expression("unary not", "not ", "a")
+    },
+    Nested {
+        close: "",
+        ..expression("unary minus", "- ", "1")
+    },
+    Nested {
+        close: " : integer >>",
+        ..expression("external name", "<< signal .", "a")
+    },
+];
+
+const fn subtype(
+    name: &'static str,
+    prefix: &'static str,
+    (open, inner, close): (&'static str, &'static str, &'static str),
+    suffix: &'static str,
+) -> Nested {
+    Nested {
+        name,
+        prefix,
+        open,
+        inner,
+        close,
+        suffix,
+    }
+}
+
+const SUBTYPE_INDICATIONS: &[Nested] = &[
+    subtype(
+        "array element constraint",
+        "package p is\n  subtype s is t",
+        ("(1 to 2)", "", ""),
+        ";\nend package;\n",
+    ),
+    subtype(
+        "record element constraint",
+        "package p is\n  subtype s is t",
+        ("(a", "(1 to 2)", ")"),
+        ";\nend package;\n",
+    ),
+    subtype(
+        "array element resolution",
+        "package p is\n  subtype s is ",
+        ("(", "resolved", ")"),
+        " t;\nend package;\n",
+    ),
+    subtype(
+        "record element resolution",
+        "package p is\n  subtype s is ",
+        ("(a ", "resolved", ")"),
+        " t;\nend package;\n",
+    ),
+];
+
+const DECLARATIONS: &[Nested] = &[
+    Nested {
+        name: "subprogram body",
+        prefix: "package body p is\n",
+        open: "function f return integer is\n",
+        inner: "",
+        close: "begin\n  return 0;\nend function;\n",
+        suffix: "end package body;\n",
+    },
+    Nested {
+        name: "protected type body",
+        prefix: "package body p is\n",
+        open: "type t is protected body\n",
+        inner: "",
+        close: "end protected body;\n",
+        suffix: "end package body;\n",
+    },
+    Nested {
+        name: "block configuration",
+        prefix: "configuration cfg of e is\nfor a\n",
+        open: "for b\n",
+        inner: "",
+        close: "end for;\n",
+        suffix: "end for;\nend configuration;\n",
+    },
+    Nested {
+        name: "component configuration",
+        prefix: "configuration cfg of e is\nfor a\n",
+        open: "for all : c\nfor a\n",
+        inner: "",
+        close: "end for;\nend for;\n",
+        suffix: "end for;\nend configuration;\n",
+    },
+];
+
+const INTERFACE_SUBPROGRAM: Nested = Nested {
+    name: "interface subprogram",
+    prefix: "package p is\n  generic (\n",
+    open: "procedure q generic (",
+    inner: "type t",
+    close: ")",
+    suffix: "\n  );\nend package;\n",
+};
+
+const fn sequential(name: &'static str, open: &'static str, close: &'static str) -> Nested {
+    Nested {
+        name,
+        prefix: "entity e is\nend entity;\n\narchitecture a of e is\nbegin\n  process\n  begin\n",
+        open,
+        inner: "null;\n",
+        close,
+        suffix: "  end process;\nend architecture;\n",
+    }
+}
+
+const SEQUENTIAL_STATEMENTS: &[Nested] = &[
+    sequential("if statement", "if a then\n", "end if;\n"),
+    sequential("else branch", "if a then\nnull;\nelse\n", "end if;\n"),
+    sequential(
+        "case statement",
+        "case a is\nwhen others =>\n",
+        "end case;\n",
+    ),
+    sequential("loop statement", "loop\n", "end loop;\n"),
+];
+
+const fn concurrent(name: &'static str, open: &'static str, close: &'static str) -> Nested {
+    Nested {
+        name,
+        prefix: "entity e is\nend entity;\n\narchitecture a of e is\nbegin\n",
+        open,
+        inner: "",
+        close,
+        suffix: "end architecture;\n",
+    }
+}
+
+const CONCURRENT_STATEMENTS: &[Nested] = &[
+    concurrent("block statement", "b : block\nbegin\n", "end block;\n"),
+    concurrent(
+        "if generate statement",
+        "g : if c generate\n",
+        "end generate;\n",
+    ),
+    concurrent(
+        "for generate statement",
+        "g : for i in 0 to 1 generate\n",
+        "end generate;\n",
+    ),
+    concurrent(
+        "case generate statement",
+        "g : case c generate\nwhen others =>\n",
+        "end generate;\n",
+    ),
+];
+
+fn parse(code: &str) -> (DesignFile, Vec<Diagnostic>) {
+    let parser = VHDLParser::new(VHDLStandard::VHDL2019);
+    let source = Source::inline(Path::new("nested.vhd"), code);
+    let mut diagnostics = Vec::new();
+    let design_file = parser.parse_design_source(&source, &mut diagnostics);
+    (design_file, diagnostics)
+}
+
+/// Run on a thread that has a stack like the worker threads
+fn with_small_stack<T: Send + 'static>(fun: impl FnOnce() -> T + Send + 'static) -> T {
+    std::thread::Builder::new()
+        .stack_size(STACK_SIZE)
+        .spawn(fun)
+        .unwrap()
+        .join()
+        .unwrap()
+}
+
+fn check_too_deep_is_an_error(construct: &'static Nested, depth: usize) {
+    with_small_stack(move || {
+        for code in [construct.unclosed(depth), construct.closed(depth)] {
+            let (_, diagnostics) = parse(&code);
+            assert!(
+                !diagnostics.is_empty(),
+                "No diagnostic for a {} that is nested {depth} times",
+                construct.name
+            );
+        }
+    })
+}
+
+fn check_deep_is_parsed(construct: &'static Nested) {
+    with_small_stack(move || {
+        for depth in [1, 50, DEEP] {
+            let (design_file, diagnostics) = parse(&construct.closed(depth));
+            assert!(
+                diagnostics.is_empty(),
+                "A {} that is nested {depth} times has diagnostics, first {:?}",
+                construct.name,
+                diagnostics.first()
+            );
+            // The formatter traverses all of the AST
+            let formatted = VHDLFormatter::format_design_file(&design_file);
+            let (_, diagnostics) = parse(&formatted);
+            assert!(
+                diagnostics.is_empty(),
+                "A formatted {} that is nested {depth} times has diagnostics, first {:?}",
+                construct.name,
+                diagnostics.first()
+            );
+        }
+    })
+}
+
+fn check_nested(constructs: &'static [Nested]) {
+    for construct in constructs {
+        check_too_deep_is_an_error(construct, TOO_DEEP);
+        check_deep_is_parsed(construct);
+    }
+}
+
+#[test]
+fn nested_expressions() {
+    check_nested(EXPRESSIONS);
+}
+
+#[test]
+fn nested_subtype_indications() {
+    check_nested(SUBTYPE_INDICATIONS);
+}
+
+#[test]
+fn nested_declarations() {
+    check_nested(DECLARATIONS);
+}
+
+#[test]
+fn nested_interface_subprograms() {
+    // The remaining interface list is scanned by each level that recovers from the error
+    check_too_deep_is_an_error(&INTERFACE_SUBPROGRAM, TOO_DEEP / 10);
+    check_deep_is_parsed(&INTERFACE_SUBPROGRAM);
+}
+
+#[test]
+fn nested_sequential_statements() {
+    check_nested(SEQUENTIAL_STATEMENTS);
+}
+
+#[test]
+fn nested_concurrent_statements() {
+    check_nested(CONCURRENT_STATEMENTS);
+}
+
+#[test]
+fn the_error_is_at_the_token_that_is_nested_too_deep() {
+    let diagnostics = with_small_stack(|| parse(&EXPRESSIONS[0].unclosed(TOO_DEEP)).1);
+    let diagnostic = diagnostics
+        .iter()
+        .find(|diagnostic| diagnostic.message == "Nesting too deep")
+        .expect("No diagnostic for the nesting depth");
+    // The declarative part of the package is the first of 256 levels
+    let column = "  constant c : integer := ".len() as u32 + 255;
+    assert_eq!(
+        (diagnostic.pos.start(), diagnostic.pos.end()),
+        (Position::new(1, column), Position::new(1, column + 1))
+    );
+}
+
+fn project_with_standard_libraries() -> Project {
+    let mut config = Config::default();
+    let path = Path::new(env!("CARGO_MANIFEST_DIR")).join("../vhdl_libraries/vhdl_ls.toml");
+    config.append(
+        &Config::read_file_path(&path).expect("Failed to read config file"),
+        &mut NullMessages,
+    );
+    Project::from_config(config, &mut NullMessages)
+}
+
+/// With the depth of the AST bounded by the parser, the analysis and the search
+/// of the AST do not exhaust the stack either.
+#[test]
+fn nested_constructs_are_analysed() {
+    let worker_threads = rayon::ThreadPoolBuilder::new()
+        .stack_size(STACK_SIZE)
+        .build()
+        .unwrap();
+    worker_threads.install(|| {
+        let mut project = project_with_standard_libraries();
+        let constructs = [
+            EXPRESSIONS,
+            SUBTYPE_INDICATIONS,
+            DECLARATIONS,
+            SEQUENTIAL_STATEMENTS,
+            CONCURRENT_STATEMENTS,
+        ];
+        for construct in constructs.into_iter().flatten() {
+            // The part of the AST that is kept despite of the error is as deep as the deepest AST
+            for depth in [DEEP, TOO_DEEP / 10] {
+                let code = construct.closed(depth);
+                project.update_source(&Source::inline(Path::new("nested.vhd"), &code));
+                let diagnostics = project.analyse();
+                assert!(
+                    depth == DEEP || !diagnostics.is_empty(),
+                    "No diagnostic for a {} that is nested {depth} times",
+                    construct.name
+                );
+                project.find_all_unresolved();
+            }
+        }
+    });
+}
